@@ -2,13 +2,14 @@
    ExtrOcamlBasic only: bool, option, unit, list, prod, sumbool -> OCaml's; N, Z, positive,
    nat stay the extracted inductive types (2^64 exceeds OCaml int). *)
 From Coq Require Import Extraction ExtrOcamlBasic ZArith.
-From GM Require Import Bytes X25 Crc Result Codec Layout Sha256 Frame Stream Reader Writer Dialect Tlog Enum NodeSpec Provider Heartbeat Gen.
+From GM Require Import Bytes X25 Crc Result Codec Layout Sha256 Frame Stream Reader Writer Dialect Tlog Enum NodeSpec Provider Heartbeat Gen Idle.
 Extraction Language OCaml.
 Extraction "mdl.ml"
   N.add N.mul N.of_nat N.to_nat N.eqb N.ltb N.div N.modulo N.shiftl N.shiftr Z.of_N Z.to_N
   x25_step x25_write x25_sum mcrf4xx
   msg_read msg_write read_backing_after initialize
   sha256 marshal gen_checksum gen_signature
+  idle_close
   process_message parse_enum_value dialect_of def_to_go
   hb_ticks hb_message hb_enabled hbcfg_of srcfg_of sr_observe sr_enabled
   provider timed_calls fan_ok fan_sub_ok sublist_b list_eqb_nat marshal_text unmarshal_text tlog_write_all tlog_read_n fix_frame dialect_init dlookup reader_read read_all read_all_c stream_left frame_write stream_write writer_init nondec.
